@@ -224,10 +224,20 @@ STEPS = [b"AVERS", b"CURCH", b"SFILE", b"STATU"]
 
 
 def _handshake_job(vec):
+    seg_loss = None
+    if len(vec) > 4:
+        vec, seg_loss = vec[:4], vec[4]  # seg_loss = (k, times): the k-th STATV segment is lost the first `times` times
     counts = {v: 0 for v in STEPS}
+    seg_seen = {}
 
     def fates(src, dst, data):
         if dst != SPA_ADDR:
+            if seg_loss is not None and src == SPA_ADDR:
+                p = unframe(data)
+                if p and p[2].startswith(b"STATV") and p[2][5] == seg_loss[0]:
+                    seg_seen[p[2][5]] = seg_seen.get(p[2][5], 0) + 1
+                    if seg_seen[p[2][5]] <= seg_loss[1]:
+                        return ["drop"]
             return None
         p = unframe(data)
         if p is None:
@@ -243,7 +253,7 @@ def _handshake_job(vec):
     rig = stepped.TRig(Chooser(), fates=fates)
     budget = 10  # PROTOCOL_RETRY_COUNT retransmissions => 11 transmissions
     feasible = all(v <= budget for v in vec)
-    horizon = sum(v * 4.3 for v in vec) + 30.0
+    horizon = sum(v * 4.3 for v in vec) + 30.0 + (seg_loss[1] * 6.0 if seg_loss else 0.0)
     ok = rig.connect(timeout=horizon)
     why = None
     if feasible:
@@ -321,6 +331,53 @@ def _threads_job(job):
     return explore.run_with(prefix, body)
 
 
+def _cleanup_threads_job(job):
+    (n_flagged, where), prefix = job
+
+    def body(ch):
+        lib.reset_library()
+        sock = GeckoUdpSocket()
+        sched = threads.Sched(ch, ("geckolib/driver/udp_socket.py",))
+        sock._lock = threads.CoopLock(sched)
+        log = []
+        keep = TH("keep", (b"k",), log=log)
+        flagged = [TH(f"gone{i}", (b"g",), log=log) for i in range(n_flagged)]
+        for h in flagged:
+            h._should_remove_handler = True
+        order = [keep] + flagged if where == "after" else flagged + [keep]
+        for h in order:
+            sock.add_receive_handler(h)
+        late = TH("late", (b"l",), log=log)
+
+        def cleaner():
+            sock._cleanup_handlers()
+
+        def adder():
+            sock.add_receive_handler(late)
+
+        sched.run([cleaner, adder])
+        names = [h.name for h in sock._receive_handlers]
+        viol = []
+        why = None
+        if sched.deadlock:
+            why = "deadlock"
+        elif "late" not in names:
+            why = f"a handler registered while the cleanup pass was retiring others has vanished (handlers {names})"
+        elif "keep" not in names or any(n.startswith("gone") for n in names):
+            why = f"cleanup result wrong: {names}"
+        else:
+            sock.dispatch_recevied_data(b"l1", PEER)
+            sock.dispatch_recevied_data(b"k1", PEER)
+            if log != [("late", b"l1"), ("keep", b"k1")]:
+                why = f"dispatch after the race delivered {log}"
+        if why:
+            viol.append(("C20|threads|handler-list", f"cleanup of {n_flagged} flagged handler(s) racing add_receive_handler, schedule {sched.schedule}: {why}",
+                         {"mode": "cleanup-threads", "n": n_flagged, "where": where, "prefix": [list(p) for p in ch.trace]}))
+        return {"violations": viol, "obs": core.digest(names), "end": core.digest(sched.schedule)}
+
+    return explore.run_with(prefix, body)
+
+
 def run(ctx):
     trans = 0
     states = set()
@@ -361,13 +418,19 @@ def run(ctx):
     g = [0, 1, 2, 10] if ctx.quick else [0, 1, 2, 5, 9, 10]
     vecs = list(itertools.product(g, repeat=4))
     vecs += [tuple(11 if j == i else 0 for j in range(4)) for i in range(4)]
+    # lost status-block segments (first, middle, last) once or twice, alone and together with lost requests
+    for k in (0, 1, 5, 13, 25, 26):
+        for times in (1, 2):
+            vecs.append((0, 0, 0, 0, (k, times)))
+            vecs.append((1, 0, 2, 1, (k, times)))
     res = {}
     for (why, ok), vec in zip(core.pmap(ctx, _handshake_job, vecs, chunksize=2), vecs):
         trans += 1
         states.add(("handshake", vec, ok))
         res[ok] = res.get(ok, 0) + 1
         if why:
-            ctx.violation(f"C20|handshake|{why[0]}", why[1], {"mode": "handshake", "vec": list(vec)})
+            ctx.violation(f"C20|handshake|{why[0]}", why[1] + (f" [lost segment {vec[4][0]} x{vec[4][1]}]" if len(vec) > 4 else ""),
+                          {"mode": "handshake", "vec": [list(x) if isinstance(x, tuple) else x for x in vec]})
     ctx.set("handshake_vectors", len(vecs))
     ctx.set("handshake_outcomes", {str(k): v for k, v in res.items()})
     ctx.log(f"(4) handshake: {len(vecs)} loss vectors: {res}")
@@ -379,6 +442,10 @@ def run(ctx):
         te += st["executions"]
         states.update(("thr", e) for e in st["end"])
         explore.fold_stats(ctx, st, prefix="threads_")
+    for cfg in ((1, "after"), (2, "before")):
+        st = explore.explore(ctx, _cleanup_threads_job, cfg, bound, label=f"cleanup-threads{cfg}", max_execs=100000)
+        te += st["executions"]
+        states.update(("thr-clean", e) for e in st["end"])
     trans += te
     ctx.set("thread_schedules", te)
     ctx.set("thread_preemption_bound", bound)
@@ -407,9 +474,12 @@ def replay(ctx, data):
         if why:
             ctx.violation(f"C20|sendq|{why[0]}", why[1], data)
     elif m == "handshake":
-        why, ok = _handshake_job(tuple(data["vec"]))
+        why, ok = _handshake_job(tuple(tuple(x) if isinstance(x, list) else x for x in data["vec"]))
         if why:
             ctx.violation(f"C20|handshake|{why[0]}", why[1], data)
+    elif m == "cleanup-threads":
+        res = _cleanup_threads_job(((data["n"], data["where"]), [tuple(p) for p in data["prefix"]]))
+        ctx.merge_violations(res["violations"])
     else:
         res = _threads_job(((data["nq"], data["nproc"]), [tuple(p) for p in data["prefix"]]))
         ctx.merge_violations(res["violations"])
